@@ -565,6 +565,11 @@ where
         }
 
         if let ControlFlow::Break(res) = validity {
+            // The insecure localhost exception is for the literal host `localhost` only: a host
+            // below it (`sub.localhost`) gets neither the https nor the registrable domain waiver.
+            if host != effective_domain {
+                return Err(WebauthnError::InvalidRpId);
+            }
             return res;
         }
 
